@@ -43,8 +43,13 @@ func indexCatalogSequences(c *Ctx) bool {
 			k := 3 + g.pick(3)
 			lines := []J{opLine("createCollection", J{"coll": hx("ic")})}
 			docs := []interface{}{}
+			var first map[string]interface{}
 			for j := 0; j < 6; j++ {
-				docs = append(docs, encDoc(h.Doc(h.newId())))
+				m := h.Doc(h.newId())
+				if j == 0 {
+					first = m
+				}
+				docs = append(docs, encDoc(m))
 			}
 			lines = append(lines, opLine("insert", J{"coll": hx("ic"), "docs": docs}))
 			probe := func() {
@@ -60,6 +65,24 @@ func indexCatalogSequences(c *Ctx) bool {
 				lines = append(lines, opLine("createIndex", J{"coll": hx("ic"), "field": hx(fields[perm[i]])}))
 			}
 			probe()
+			// one bulk update that changes two indexed fields in some documents and only one of them in others (the
+			// first document already holds the new value of the first field): every index must follow every document
+			{
+				flat := []string{}
+				for i := 0; i < k; i++ {
+					if f := fields[perm[i]]; f == "x" || f == "xy" || f == "y" {
+						flat = append(flat, f)
+					}
+				}
+				if len(flat) >= 2 {
+					v1, has := first[flat[0]]
+					if !has {
+						v1 = int64(1)
+					}
+					lines = append(lines, opLine("update", J{"q": J{"coll": hx("ic")}, "upd": J{"setAll": []interface{}{[]interface{}{hx(flat[0]), encValue(v1)}, []interface{}{hx(flat[1]), encValue(int64(99))}}}, "viaUpdate": 1}))
+					probe()
+				}
+			}
 			order := g.R.Perm(k)
 			for _, pos := range order {
 				lines = append(lines, opLine("dropIndex", J{"coll": hx("ic"), "field": hx(fields[perm[pos]])}))
